@@ -1,6 +1,6 @@
 """SYNC consumer / producer rules (C16): write rules of 1005h/1006h with rollback, cache coherence,
 refusal changes nothing, producer gates, cycle -> ticks path."""
-from canalyze.ir import walk, strip, const_eval, show, callee_name
+from canalyze.ir import is_pointer, walk, strip, const_eval, show, callee_name
 from canalyze import flow
 from canalyze.peval import PEval
 
@@ -16,7 +16,7 @@ def _run(m, fname, inputs, filt=None):
         pe.store_filter = filt
     base = {}
     for prm in m.funcs[fname].params:
-        if (prm[2] or '').rstrip().endswith('*'):
+        if is_pointer(prm[2]):
             base[prm[0]] = 1
     base.update(inputs)
     return pe.run(base)
